@@ -221,6 +221,7 @@ def flex_layout(context, box, bottom_space, skip_stack, containing_block, page_i
             child.flex_base_size = flex_basis
             if main == 'width':
                 child.main_outer_extra = (
+                    child.padding_left + child.padding_right +
                     child.border_left_width + child.border_right_width)
                 if child.margin_left != 'auto':
                     child.main_outer_extra += child.margin_left
@@ -228,6 +229,7 @@ def flex_layout(context, box, bottom_space, skip_stack, containing_block, page_i
                     child.main_outer_extra += child.margin_right
             else:
                 child.main_outer_extra = (
+                    child.padding_top + child.padding_bottom +
                     child.border_top_width + child.border_bottom_width)
                 if child.margin_top != 'auto':
                     child.main_outer_extra += child.margin_top
